@@ -44,6 +44,12 @@ def trace_monitor(r, ops, where=""):
                         sig={"op": op.split(" ")[0], "event": bad[0].split(" ")[0]})
             f.replay_text = "\n".join(ops) + "\n"
             fs_.append(f)
+        for e in ev:
+            if e.startswith("OUTSIDE"):
+                op = ops[i] if i < len(ops) else "?"
+                f = Failure("outside_cache_dir", i, f"{where}{op[:60]}: {e[:120]}", sig={"op": op.split(" ")[0]})
+                f.replay_text = "\n".join(ops) + "\n"
+                fs_.append(f)
     return fs_
 
 
